@@ -119,6 +119,11 @@ func c17NewConfig(https, post, custom bool) *c17Config {
 				mu.Lock()
 				defer mu.Unlock()
 				n++
+				// a partial function: it has nothing custom to say about /page2 and returns "",
+				// which leaves that flow with the default (random) index
+				if strings.Trim(r.URL.Path, "/") == "page2" {
+					return ""
+				}
 				return fmt.Sprintf("rs-%d-%s", n, strings.Trim(r.URL.Path, "/"))
 			}
 		}
@@ -530,7 +535,7 @@ func c17Run(t *testing.T, rep *Report, cfg *c17Config, lines [][]byte, sample in
 			case "Deliver":
 				// secondary configurations of the quick tier execute every state-changing delivery
 				// and one in `sample` of the deliveries the model refuses
-				if sample > 1 && ed.Reply.Status != 302 && int(hashKey(key)[1])%sample != 0 {
+				if sample > 1 && ed.Reply.Status != 302 && (int(hashKey(key)[1])+int(seedVal()))%sample != 0 {
 					return
 				}
 				real := cfg.deliver(st, ed.Act)
@@ -615,8 +620,12 @@ func TestC17(t *testing.T) {
 				c17Run(t, rep, cfg, lines, 16)
 			} else if !thorough() {
 				c17Run(t, rep, cfg, lines, 5)
+			} else if ci == 0 {
+				// thorough: 1.8 M edges (two flows, two users) + 0.55 M (three flows); the primary
+				// deployment executes a quarter / a half of them (chosen by hash and VERIF_SEED)
+				c17Run(t, rep, cfg, lines, []int{4, 2}[fi])
 			} else {
-				c17Run(t, rep, cfg, lines, 1)
+				c17Run(t, rep, cfg, lines, 16)
 			}
 		}
 	}
